@@ -29,8 +29,14 @@ HARNESSES = [
 _s = [x for x in seqs('aswBR', 3, minlen=1) if any(c in x for c in 'swB')]
 HARNESSES += [HH(x) for x in _s] + [HH(x, conc=True) for x in _s if len(x) <= 2] + [HH(x, chain=True) for x in _s if len(x) <= 2]
 HARNESSES += [HH(x, tiers=('thorough',)) for x in seqs('abswBR', 4, minlen=4) if any(c in x for c in 'swB')]
+# shared with C08: the semaphore kernel under real interleavings - "a wait is satisfied only by a signal" is what the visibility clause for semaphores rests on (a stale kernel wake-up
+# left behind by a timed-out wait lets a later wait return without any signal, i.e. before the producer's write: seeded C05_m4 / C08_m3)
+import importlib.util as _ilu
+_sp = _ilu.spec_from_file_location('spec_C08_shared', os.path.join(os.path.dirname(__file__), '..', 'C08', 'spec.py')); _m8 = _ilu.module_from_spec(_sp); _sp.loader.exec_module(_m8)
+for _h in _m8.HARNESSES:
+    if _h.name == 'Q_sema_2w2s': _h.file = '../C08/h_sema_q.c'; HARNESSES.append(_h)
 ASSUMPTIONS = ['memory-order lemmas: the C11 order is read from the IR instruction executed on the path that performs the hand-off; consume/dependency ordering counts as acquire (as this build defines it); the hardware memory model is outside the claim',
                'dispatch_once: the release publication of DONE is asserted in the C09 harness; no acquire is asserted for _dispatch_once_wait (the code documents none on this platform)',
                'thread-event wait: futex returns arbitrarily (spurious wake-ups), at most 3 sleeps']
-LEVEL_TEXT = '(a) Never returns early: the SYNC-RETURN assertion of the shared history harness over all sequences containing a synchronous submission (serial, concurrent, chained). (b) Visibility: for every hand-off edge named in the property the atomic instruction that performs it on the executed path carries the documented C11 order (acquire on lock acquisition and on the waiter side, release on unlock / wakeup / MPSC tail exchange / thread-event signal / group leave / semaphore signal), decided from arbitrary states by symbolic execution of the real unit; the thread-event waiter leaves only when really signalled (spurious wake-ups injected).'
+LEVEL_TEXT = '(a) Never returns early: the SYNC-RETURN assertion of the shared history harness over all sequences containing a synchronous submission (serial, concurrent, chained). (b) Visibility: for every hand-off edge named in the property the atomic instruction that performs it on the executed path carries the documented C11 order (acquire on lock acquisition and on the waiter side, release on unlock / wakeup / MPSC tail exchange / thread-event signal / group leave / semaphore signal), decided from arbitrary states by symbolic execution of the real unit; the thread-event waiter leaves only when really signalled (spurious wake-ups injected). Shared with C08: the semaphore kernel under real interleavings (tier Q: 2 waiters x 2 signalers) - a wait is satisfied only by a signal (no stale kernel wake-up survives a timed-out wait), which is what the semaphore visibility clause rests on.'
 LEVEL_NOTE = "The C11 order is read from clang's IR; the hardware memory model and non-SC executions are outside; dispatch_once acquire side is not asserted (the code documents none on this platform; release publication is asserted in C09)."
